@@ -12,10 +12,12 @@
 (* The monitors are the laws of C09 themselves (SnapshotDiff!LawXxx), evaluated on d (and *)
 (* for the swap law, on d and r); the transcription SnapshotDiff!Diff is NOT consulted.  *)
 (* A failing law is recorded in viol (line number and law bits); the line is consumed.   *)
+(* Level I: lines whose lists differ from SnapshotDiff!Diff are only COUNTED (drift).    *)
 EXTENDS TraceUtil
 
-VARIABLES tid, l, viol
-vars == <<tid, l, viol>>
+VARIABLES tid, l, viol,
+          drift      \* Level I: number of lines on which the lists differ from the transcription SnapshotDiff!Diff
+vars == <<tid, l, viol, drift>>
 
 SD == INSTANCE SnapshotDiff WITH NonRootPaths <- {}, Inodes <- {}, Devs <- {}, Mtimes <- {}, Sizes <- {},
                                  MaxEntries <- 0, RootRecs <- {}, Deviation <- "none",
@@ -63,13 +65,20 @@ Mask(ln) ==
 \* both directions of the pair are judged: (ref, snap, d) and (snap, ref, r)
 Rev(ln) == [ref |-> ln.snap, snap |-> ln.ref, ig |-> ln.ig, d |-> ln.r, r |-> ln.d, exc |-> ln.exc]
 
-Init == tid \in 1..NTraces /\ l = 1 /\ viol = {}
+\* Level I (never a verdict): do the actual lists equal the transcription's?
+Drifts(ln) == ln.exc = "" /\ (ToSets(ln.d) # SD!Diff(ToFun(ln.ref), ToFun(ln.snap), ln.ig)
+                              \/ ToSets(ln.r) # SD!Diff(ToFun(ln.snap), ToFun(ln.ref), ln.ig))
+
+Init == tid \in 1..NTraces /\ l = 1 /\ viol = {} /\ drift = 0
 
 Line == /\ l <= Len(Tr) /\ l' = l + 1 /\ UNCHANGED tid
+        /\ drift' = drift + (IF Drifts(Tr[l]) THEN 1 ELSE 0)
         /\ LET m1 == Mask(Tr[l])  m2 == Mask(Rev(Tr[l]))
-           IN viol' = IF Cardinality(viol) >= 3 THEN viol
-                      ELSE viol \cup (IF m1 # 0 THEN {l * 4096 + m1} ELSE {})
-                                \cup (IF m2 # 0 THEN {l * 4096 + 2048 + m2} ELSE {})
+               \* the drift count travels as one negative number added with the last line
+               dr == IF l = Len(Tr) /\ drift' > 0 THEN {0 - drift'} ELSE {}
+           IN viol' = IF Cardinality(viol) >= 3 THEN viol \cup dr
+                      ELSE viol \cup dr \cup (IF m1 # 0 THEN {l * 4096 + m1} ELSE {})
+                                       \cup (IF m2 # 0 THEN {l * 4096 + 2048 + m2} ELSE {})
 
 Next == TLCGet(BIG + tid) = 0 /\ Line
 Spec == Init /\ [][Next]_vars
